@@ -40,10 +40,20 @@ FLOOR = {"quick": 200, "thorough": 4000}
 DIRS = ["src", "lib", "app", "core", "docs", "a", "b", "pkg", "gen", "util", "tests", "test", "build", "dist", "node_modules", "venv", "_build",
         ".git", ".hidden", ".cache", ".storybook", ".husky", ".a", "Tests", "builder", "a.b"]
 ORDINARY = ["src", "lib", "app", "core", "docs", "a", "b", "pkg", "gen", "util", "Tests", "builder", "a.b"]
-STEMS = ["main", "util", "index", "mod", "x", "a", "setup", "gen", "test", "build", ".secret", ".env", "dist", "main", "util"]
+STEMS = ["main", "util", "index", "mod", "x", "a", "setup", "gen", "test", "build", ".secret", ".env", "dist", "main", "util", "Makefile", "Kconfig"]
 EXTS = list(G.LANGUAGE_OF_EXT) + G.UNSUPPORTED_EXT
 # whole file names Pygments maps without an extension (build files are Python to Pygments) and well-known unsupported ones
-WHOLE_NAMES = ["BUILD", "WORKSPACE", "SConstruct", "SConscript", "BUCK", "README", "LICENSE", "Dockerfile", "Gemfile", "CMakeLists.txt"]
+WHOLE_NAMES = ["BUILD", "WORKSPACE", "SConstruct", "SConscript", "BUCK", "README", "LICENSE", "Dockerfile", "Gemfile", "CMakeLists.txt", "BUILD.bazel", "MODULE.bazel",
+               "Makefile"]
+# file contents: text (written as UTF-8) or {"hex": ...} for bytes that are not UTF-8 text with LF line ends
+CONTENTS = ["x = 1\n", "def f(a):\n    return a\n", "int f(int a) {\n  return a;\n}\n", "", "function g() {\n}\n", "café\n",
+            {"hex": b"def f(a):\r\n    return a\r\n".hex()}, {"hex": b"int f(int a) {\r  return a;\r}\r".hex()}, {"hex": b"x = 'caf\xe9'\n".hex()},
+            {"hex": b"function g() {\r\n  return '\xff\xfe';\r\n}\r\n".hex()}]
+
+
+def content_bytes(c) -> bytes:
+    return bytes.fromhex(c["hex"]) if isinstance(c, dict) else c.encode("utf-8")
+
 
 
 @st.composite
@@ -67,7 +77,7 @@ def trees(draw):
             continue
         for k in range(1, len(parts) + 1):
             dirs.add("/".join(parts[:k]))
-        files[path] = draw(st.sampled_from(["x = 1\n", "def f(a):\n    return a\n", "int f(int a) {\n  return a;\n}\n", "", "function g() {\n}\n", "café\n"]))
+        files[path] = draw(st.sampled_from(CONTENTS))
     return files, sorted(dirs)
 
 
@@ -101,7 +111,8 @@ def cases(draw):
     yml = draw(patterns(files, dirs)) if draw(st.integers(0, 2)) else None
     gi = draw(patterns(files, dirs)) if draw(st.integers(0, 2)) else None
     spelling = draw(st.sampled_from(["absolute", "relative", "dot", "dotdot", "sub-dotdot", "absolute-dotdot"]))
-    return {"files": files, "option": opt, "yml": yml, "gitignore": gi, "root": spelling}
+    gi_style = draw(st.sampled_from(["plain", "plain", "no-final-newline", "comments", "comments-no-final-newline"]))
+    return {"files": files, "option": opt, "yml": yml, "gitignore": gi, "gitignore_style": gi_style, "root": spelling}
 
 
 def expected(case):
@@ -109,8 +120,38 @@ def expected(case):
     out = {}
     for rel, content in case["files"].items():
         if G.qualifies(rel, pats):
-            out[rel] = (G.language_of(rel), hashlib.md5(content.encode("utf-8")).hexdigest())
+            out[rel] = (G.language_of(rel), hashlib.md5(content_bytes(content)).hexdigest())
     return out
+
+
+def _gitignore_text(pats, style):
+    """The same patterns as a user may write them: with comment and blank lines, with or without a final newline."""
+    lines = list(pats)
+    if style.startswith("comments"):
+        lines = ["# build output", ""] + [x for p in pats for x in (p, "")] + ["# end"][: 0 if style.endswith("no-final-newline") else 1]
+        while lines and lines[-1] == "" and style.endswith("no-final-newline"):
+            lines.pop()
+    text = "\n".join(lines)
+    return text if style.endswith("no-final-newline") or not lines else text + "\n"
+
+
+def selftest_names():
+    """The reference's name -> language table against Pygments, for every file name the generator can produce."""
+    from pygments.lexers import get_lexer_for_filename
+    from pygments.util import ClassNotFound
+
+    supported = set(G.LANGUAGE_OF_EXT.values())
+    n = 0
+    for name in sorted({f"{s}.{e}" if e else s for s in STEMS for e in EXTS + ["py", "js", "c", "java"]} | set(WHOLE_NAMES)):
+        try:
+            lx = get_lexer_for_filename(name).name
+        except ClassNotFound:
+            lx = None
+        want = lx if lx in supported else None
+        if G.language_of(name) != want:
+            raise AssertionError(f"reference name table disagrees with Pygments on {name!r}: {G.language_of(name)} vs {want}")
+        n += 1
+    return n
 
 
 def _yaml_list(pats):
@@ -127,11 +168,11 @@ def run_case(case):
     from codelimit.common.Configuration import Configuration
 
     want = expected(case)
-    files = dict(case["files"])
+    files = {k: content_bytes(v) for k, v in case["files"].items()}
     if case["yml"] is not None:
         files[".codelimit.yml"] = _yaml_list(case["yml"])
     if case["gitignore"] is not None:
-        files[".gitignore"] = "".join(p + "\n" for p in case["gitignore"])
+        files[".gitignore"] = _gitignore_text(case["gitignore"], case.get("gitignore_style", "plain"))
     with tree.temp_tree(files) as root:
         (root / "zz_anchor").mkdir(exist_ok=True)  # an (empty) directory to spell 'root/zz_anchor/..'
         spelling = case["root"]
@@ -238,6 +279,7 @@ def selftest_reference(n=400):
 def gen(col, seed, n, selftest=False):
     if selftest:
         col.notes["reference_crosschecked_against_pathspec_pairs"] = selftest_reference()
+        col.notes["reference_name_table_crosschecked_against_pygments"] = selftest_names()
 
     def body(case):
         pats = list(case["option"]) + list(case["yml"] or []) + list(case["gitignore"] or [])
@@ -255,6 +297,12 @@ def gen(col, seed, n, selftest=False):
             labels.append("builtin-excluded-present")
         if has_hidden:
             labels.append("hidden-present")
+        if any(isinstance(c, dict) for p, c in files.items() if G.qualifies(p, pats)):
+            labels.append("qualifying-file-not-utf8-lf")
+        if case["gitignore"]:
+            labels.append(f"gitignore-style:{case.get('gitignore_style', 'plain')}")
+        if any(p.split("/")[-1].startswith(G.CLAIMED_STEMS) for p in files):
+            labels.append("name-claimed-by-another-lexer-present")
         before = PROBE["unusable"]
         col.eval(case, nontrivial=has_hidden and cfg_excluded and deep, labels=labels)
         col.label("analysed-set-observed" if PROBE["unusable"] == before else "analysed-set-observation-unavailable")
